@@ -193,9 +193,32 @@ def prop_planner(case, ctx):
     ctx.nontrivial(bool((avail.sum(1) >= 2).any()) and n >= 2)
 
 
+@st.composite
+def reuse_cases(draw, tier="quick"):
+    """two MDPs with the same number of states / actions but different action availability"""
+    a = draw(mdp_specs("discounted", min_states=3, max_states=4, max_actions=3, allow_explicit=False,
+                       absorbing_kinds=("n",), gammas=[0.3, 0.6, 0.9], schemes=("int",)))
+    b = draw(mdp_specs("discounted", min_states=a["n"], max_states=a["n"], max_actions=3, allow_explicit=False,
+                       absorbing_kinds=("n",), gammas=[0.3, 0.6, 0.9], schemes=("int",)))
+    return {"a": a, "b": b, "w": draw(st.sampled_from([0.5, 1, 2.0]))}
+
+
+def prop_reuse(case, ctx):
+    from msdm.algorithms.entregpolicyiteration import EntropyRegularizedPolicyIteration
+    from vpm.checks.reuse import check_reuse
+    ma, _ = build_mdp(case["a"])
+    mb, _ = build_mdp(case["b"])
+    make = lambda: EntropyRegularizedPolicyIteration(entropy_weight=case["w"], iterations=3000)
+    check_reuse(ctx, "C19.reuse", make, lambda pl, m: pl.plan_on(m),
+                lambda r, m: {"V": {s: float(v) for s, v in r.V.items()}, "pi": np.asarray(r.policy), "conv": bool(r.converged)}, ma, mb)
+    ctx.nontrivial(case["a"]["trans"] != case["b"]["trans"])
+
+
 PROPS = [
-    Prop("tensor", lambda tier: tensor_cases(tier), prop_tensor, quick=1500, thorough=30000,
+    Prop("reuse", lambda tier: reuse_cases(tier), prop_reuse, quick=200, thorough=12000,
+         doc="a planner object reused on a second MDP of the same shape gives the same result as a fresh one"),
+    Prop("tensor", lambda tier: tensor_cases(tier), prop_tensor, quick=1500, thorough=90000,
          doc="entropy_regularized_policy_iteration on tensors: soft Bellman relations and small-weight bracket"),
-    Prop("planner", lambda tier: planner_cases(tier), prop_planner, quick=600, thorough=12000,
+    Prop("planner", lambda tier: planner_cases(tier), prop_planner, quick=600, thorough=36000,
          doc="EntropyRegularizedPolicyIteration.plan_on on MDP specs with state-dependent action sets"),
 ]
